@@ -181,6 +181,25 @@ Theorem fingerprint_identifies_label_set_on_real_hashes : forall l1 l2, real_F l
 Proof. exact real_family_injective. Qed.
 Print Assumptions fingerprint_identifies_label_set_on_real_hashes.
 
+(* FingerPrintType = Bernstein (configuration hash_type: default): the fingerprint is uint64 of a 32-bit hash of the 24
+   accumulator bytes, so the fourth fact (the final hash separates the accumulator triples) cannot hold on families of more
+   than 2^32 label sets ... *)
+Theorem bernstein_fingerprint_has_32_bits : forall d, 0 <= fin_djb d < 4294967296.
+Proof. exact fin_djb_range. Qed.
+Print Assumptions bernstein_fingerprint_has_32_bits.
+
+(* ... and does not hold on small ones either (open finding bernstein-fingerprint-32-bit): two one-label sets found by a birthday
+   search over 22 349 candidates get the same Bernstein fingerprint (2531709839) and different CityHash fingerprints; real
+   city.CH64 values, both fingerprints compared with the code on every run. "Different label sets get different fingerprints"
+   is refuted for this configuration by a concrete pair; for the default type no collision is known (and none can be excluded:
+   fingerprint_identifies_label_set states exactly what has to hold). *)
+Theorem fingerprint_injective_refuted_for_bernstein :
+  ~ Permutation djb_a djb_b /\
+  fingerprint_djb_tbl djb_tbl djb_a = fingerprint_djb_tbl djb_tbl djb_b /\
+  fingerprint_tbl djb_tbl djb_a <> fingerprint_tbl djb_tbl djb_b.
+Proof. exact bernstein_fingerprints_collide. Qed.
+Print Assumptions fingerprint_injective_refuted_for_bernstein.
+
 (* name and value enter the pair hash through separate arguments: under injective oracles
    {ab:"c"} and {a:"bc"} have different pair hashes *)
 Theorem pair_hash_separates_name_and_value : forall ch64 h128 (n1 v1 n2 v2 : string),
